@@ -227,7 +227,11 @@ impl Gen
                 {
                     if self.g.cfg.neworld == 0 || in_ew { continue; }
                     let e = self.ent();
-                    let b = match self.rng.gen_range(0..3) { 0 => vec![Trig::EMut(e, 1)], 1 => vec![Trig::EEv(e, 1)], _ => vec![Trig::EMut(e, 1), Trig::EEv(e, 1)] };
+                    let b = match self.rng.gen_range(0..5)
+                    {
+                        0 => vec![Trig::EMut(e, 1)], 1 => vec![Trig::EEv(e, 1)], 2 => vec![Trig::ERem(e, 1)],
+                        3 => vec![Trig::EMut(e, 1), Trig::EEv(e, 1)], _ => vec![Trig::EMut(e, 1), Trig::EEv(e, 1), Trig::ERem(e, 1)],
+                    };
                     Op::ERem(1, b)
                 }
                 "setlocal" => { if !in_ew { continue; } Op::SetLocal(self.val()) }
